@@ -107,8 +107,26 @@ class SigmaCollection:
             else self.rules
         )
 
-        # Sort rules by reference order
-        self.rules = list(sorted(self.rules))
+        # Sort rules by reference order: a rule referenced by a correlation rule is placed before
+        # it, apart from that the order of the collection is kept (stable depth-first topological
+        # order). The "is referenced by" relation is only a partial order, therefore a
+        # comparison-based sort can't be used here.
+        members = {id(rule) for rule in self.rules}
+        visited: set[int] = set()
+        ordered: list[SigmaRule | SigmaCorrelationRule] = []
+
+        def visit(rule: SigmaRule | SigmaCorrelationRule) -> None:
+            if id(rule) in visited or id(rule) not in members:
+                return
+            visited.add(id(rule))
+            if isinstance(rule, SigmaCorrelationRule):
+                for rule_ref in rule.referenced_rules:
+                    visit(rule_ref.rule)
+            ordered.append(rule)
+
+        for rule in self.rules:
+            visit(rule)
+        self.rules = ordered
 
     @classmethod
     def from_dicts(
